@@ -14,6 +14,7 @@ import (
 	"hash"
 	"regexp"
 	"runtime/debug"
+	"slices"
 	"sort"
 	"strconv"
 	"strings"
@@ -517,7 +518,9 @@ func (s *Sim) collectLocked(now time.Time) ([]Event, time.Time) {
 	for _, src := range s.sources {
 		src.Events(now, add)
 	}
-	sort.SliceStable(evs, func(i, j int) bool { return evs[i].Key < evs[j].Key })
+	// (typed stable sort: with hundreds of parked tasks the reflection-based
+	// sort.SliceStable dominated the cost of a scheduling step)
+	slices.SortStableFunc(evs, func(a, b Event) int { return strings.Compare(a.Key, b.Key) })
 	// Keys starting with '~' are idle-only events (lazy deliveries): they are
 	// offered only when nothing else is enabled.
 	k := len(evs)
